@@ -11,7 +11,7 @@ from .contracts import ContractCtx, _conj
 from .interp import Interp
 from .path import Obligation, PathCtx
 from .smt import STATS, Z, simp
-from .values import EngineError, OutOfReach, PathEnd, PyRaise, ReturnEx
+from .values import EngineError, OutOfReach, PartialReach, PathEnd, PyRaise, ReturnEx
 
 MAX_PATHS = 20000
 
@@ -161,6 +161,7 @@ def verify_function(program, registry, spec, opts=None, work=None, expand_to=Non
         FUNCTION_DEADLINE[0] = time.time() + float(opts.get("function_budget_s", 900))
         _forker.new_path_counter()
     work = [[]] if work is None else list(work)
+    partial_left, keep_exploring, partial_deadline = 100, False, None  # exploration after a PartialReach (refutations only)
     seen = 0
     while work:
         if FUNCTION_DEADLINE[0] is not None and time.time() > FUNCTION_DEADLINE[0]:
@@ -218,7 +219,11 @@ def verify_function(program, registry, spec, opts=None, work=None, expand_to=Non
                 pass
             ctx.obligations.append(ob)
         except OutOfReach as e:
-            res.out_of_reach = str(e)
+            res.out_of_reach = res.out_of_reach or str(e)
+            if isinstance(e, PartialReach) and partial_left > 0:
+                partial_left -= 1
+                keep_exploring = True
+                partial_deadline = partial_deadline or time.time() + 60
             try:  # inputs that drive the real code to the point the verifier could not follow
                 r_, m_ = ctx.solver.model()
                 if m_ is not None and ctx.concretizer is not None:
@@ -259,8 +264,11 @@ def verify_function(program, registry, spec, opts=None, work=None, expand_to=Non
         res.contract_calls |= I.contract_calls
         res.extern_calls |= I.extern_calls
         work.extend(ctx.pending)
-        if res.error or res.out_of_reach:
+        if res.error or (res.out_of_reach and not keep_exploring):
             break
+        if res.out_of_reach and partial_deadline and time.time() > partial_deadline:
+            break
+        keep_exploring = bool(res.out_of_reach) and keep_exploring
     res.paths = seen
     res.wall_s = time.time() - t0
     res.queries = STATS.queries - q0
